@@ -684,6 +684,16 @@ func opqOf(cls, id int) any {
 		} else {
 			v = MyStr("named")
 		}
+	case 33: // a value of an unrelated struct type that EMBEDS an initialised Stack (its methods are promoted): not a Stack, not an alias
+		v = struct {
+			stackage.Stack
+			Label string
+		}{stackage.And().Push("in", "side"), "l"}
+	case 34: // ... and a pointer to one
+		v = &struct {
+			stackage.Stack
+			Label string
+		}{stackage.Or().Push("in", "side"), "p"}
 	case 32: // a pointer to an int holding id: equal to the int id as far as IsEqual is concerned, another value all the same
 		p := new(int)
 		*p = id
